@@ -269,7 +269,7 @@ def long_chains(draw, names):
             m = (t, m, draw(st.sampled_from([math.e, 2, 1])))
         else:
             m = (t, m, draw(st.sampled_from([math.e, 2])))
-    return m
+    return M.cap_powers(m)
 
 
 def make_chains(stats):
